@@ -326,6 +326,8 @@ META_EXTRA = "ENGAGE (optional from optional: target ends in the source's engage
 META = (META[0] + " " + META_EXTRA, META[1])
 META = (META[0] + ' SIB (cv/ref-qualified overloads of one member agree); INITFORM.', META[1])
 
+META = (META[0] + ' REL evaluates optional and variant operators over a fourth element outcome, unordered (only != holds), because their operators are specified element-wise; TYPEDFUN (a comparison functor fixed to one template parameter is never applied to an operand declared with another; controls in fixtures/arith_pos.hpp).', META[1])
+
 
 def run(chk, tier):
     db = D.load("checks")
@@ -336,6 +338,10 @@ def run(chk, tier):
     _SB.positive_control(chk)
     from ..rules import initform as _IF
     _IF.check(chk, db, ['_optional/', '_variant/', '_expected/'])      # INITFORM: forwarded packs direct-non-list-initialise
+    from ..rules import iters as _ITY
+    if _ITY.typed_functor_area(chk, db, ["_optional/", "_variant/", "_expected/"]) < 10:      # TYPEDFUN
+        chk.analysis_broken("TYPEDFUN: fewer than 10 two-type-parameter templates in optional / variant / expected (floor 10)")
+    _ITY.typed_functor_control(chk, D)
     nrel = rel.check(chk, db, ["_optional/optional.hpp", "_variant/variant.hpp", "_expected/unexpected.hpp"])
     if chk.rule_instances.get("REL", 0) < 22:      # operators found (an unmodelled body is UNKNOWN, not a lost subject)
         chk.analysis_broken("REL: only %d optional/variant operators modelled (floor 22)" % nrel)
